@@ -1061,8 +1061,21 @@ func genC02Ops(r *Rng, sev int) []WOp {
 		ops = append(ops, WOp{Kind: "AddE", W: 1 + r.Intn(6)})
 	}
 	if r.Chance(25) {
+		var added []int
 		for n := 1 + r.Intn(3); n > 0; n-- {
-			ops = append(ops, WOp{Kind: "AddL", L: sev, W: 1 + r.Intn(6)})
+			w := 1 + r.Intn(6)
+			added = append(added, w)
+			ops = append(ops, WOp{Kind: "AddL", L: sev, W: w})
+		}
+		switch r.Intn(5) { // a history: the writers of the severity are taken away again (some, all, by reset)
+		case 0:
+			ops = append(ops, WOp{Kind: "RemL", L: sev, W: added[r.Intn(len(added))]})
+		case 1:
+			for _, w := range added {
+				ops = append(ops, WOp{Kind: "RemL", L: sev, W: w})
+			}
+		case 2:
+			ops = append(ops, WOp{Kind: "ResetL", L: sev})
 		}
 	}
 	return ops
@@ -1310,6 +1323,15 @@ func runC02(r *Run) {
 		in.Msg = strings.Repeat("long message ", 8000)
 		in.Args = []C02Arg{{Kind: "str", S: "k"}, {Kind: "str", S: strings.Repeat("y", 100000)}}
 		c02One(r, snap, in, runeSet)
+		// multi-line messages whose continuation lines are about as long as / longer than a fresh pooled
+		// buffer (1 KiB), each formatted on fresh pools: the record is still ONE Write
+		for _, n := range []int{600, 800, 1000, 1200, 5000} {
+			slog.VerifPoolsFresh()
+			in := base(infoM, mode, 4)
+			in.Msg = "head line\n" + strings.Repeat("c", n/2) + "\n" + strings.Repeat("d", n/2)
+			in.Args = []C02Arg{{Kind: "str", S: "k"}, i42}
+			c02One(r, snap, in, runeSet)
+		}
 		// not admitted: an Off logger, an Off severity, a level below the severity
 		for _, lv := range []int{7, 2} {
 			in := base(infoM, mode, 4)
